@@ -14,6 +14,8 @@ func init() { register("C13", "exploration", runC13) }
 
 func runC13(r *engine.Run) {
 	r.Rule = "E1 over a finite space, enumerated completely in both tiers: 24 band names x repeater x dwell-time; per configuration: every data-rate index -1..16 x direction; protocol version {1.0.0..1.1.0, unknown, 46 unknown strings on the seam between the two arguments (known version + known revision, empty, the word latest)} x revision {A,B,C,RP002-1.0.0..3, unknown, empty, the word latest, two seam strings} x DR -1..16 through GetMaxPayloadSizeForDataRateIndex and every (version, revision, DR) cell of the snapshot; every default channel; TX-power indices -1..16. Oracle: table closure and relations decided on the hook snapshot (exact key sets and direction flags), Regional Parameters constants from mc/spec/region.go. Non-trivial: a table cell or accessor result that was compared; distinct by construction."
+	r.Rule += " E3 (schedules): one configured band object, new in every execution, read by two or three threads at once (data-rate lookups by parameters and by index, max payload size; a network server answers many devices from one band configuration): every interleaving of the instrumented accesses (preemption-bounded and unbounded with state-key pruning); every thread gets the answers it gets alone."
+	mergeSchedSummary(r, "C13")
 	// channel histories (E2): the data-rates handed out stay defined, and supported by a channel, after custom channels are added
 	for _, name := range bandNames {
 		cfg := bandCfg{name, false, lorawan.DwellTimeNoLimit}
